@@ -92,6 +92,11 @@ CHECKS = {
             "Every helper family (Xilinx S6PLL/S6DCM/S7PLL/S7MMCM/US/US+, Lattice ECP5/iCE40/NX, Intel Cyclone IV/V/10LP/MAX10/Stratix V, Gowin GW1N/GW2A/GW5A, Efinix Trion via a stand-in platform, CologneChip GateMate) x device variants / speed grades x input frequencies (log-uniform and on the bounds) x 1..max outputs (frequency, phase, margin in {0, 1e-4, 1e-2, 5e-2}) plus by-construction requests built from dividers inside the declared ranges and edge requests just past a range end. If a configuration is returned: every output recomputed from the returned integers in Fraction within margin (slack 1e-12), every divider/multiplier/VCO/PFD inside the declared ranges, emitted Instance parameters equal the configuration. If refused: an independent interval search over the same ranges must find nothing. Exceptions other than the documented refusal are violations.",
             "Trusted: the per-family primitive formulas stated once in the adapters. Sixteen known findings (Gowin search/port/margin defects, ECP5 spare feedback divider and feedback search, NX reference divider not emitted / PFD window, iCE40 finalize crash, GW5A odiv range, Trion window/crash/margin) are keyed narrowly and replayed; refusals at margin 0 are not judged. TITANIUMPLL computes nothing in LiteX.",
             "DESIGN.md section 4 / C20"),
+    "C10": ("exploration",
+            "exhaustive enumeration of (burst, len, size) classes + property-based testing (Hypothesis): independent AMBA address formulae for the burst-to-beat expansion; AXI4 master / byte-accurate memory slave scoreboard for the width converters",
+            "AXIBurst2Beat: ALL classes (FIXED len 0..15, INCR len 0..255 within the 4 KB rule, WRAP len 1/3/7/15 at every start position of the wrap window, sizes 0..7, three capability sets) x start-address variants x beat-stall and request-gap patterns x back-to-back bursts, plus generated burst sequences with generated schedules; compared per beat at transfer-size granularity with the AMBA formulae, beat count, first/last, id, request consumed exactly once with the last beat, hold rule. AXIUpConverter / AXIDownConverter / AXIConverter (ratios 2/4/8, 8..256 bit, 1-2 outstanding, both AW/W orders, error ranges): same bytes in the same order, R beats complete with last on the final one, exactly one B per burst, ids echoed, legal burst parameters and hold rule towards the slave.",
+            "Trusted: Migen's simulator, harness agents, the AMBA formulae as transcribed (cross-checked by two independent implementations). Inside the converters' documented support only (full-width beats; up: aligned start and len+1 a multiple of the ratio); narrow transfers / FIXED len>0 down / single-beat reads through an up-converter are outside and fail on the real code (recorded in DESIGN.md).",
+            "DESIGN.md section 4 / C10"),
 }
 
 NOT_YET = {}
